@@ -4,14 +4,18 @@ import numpy as np
 
 ID = "C25"
 LEAN_MODULES = ["MjwVerif.Props.C25"]
-GEN_FUNCS = ["solver._solve_done__kernel", "solver._rescale"]
-LEVEL_TEXT = ("Theorem `kernel_refines_model`: the `_solve_done` kernel as regenerated from solver.py equals, for every input, the per-world transition of the hand-written "
-              "termination model (Model/Term.lean); in the model, for any nworld, any iterations >= 1, any convergence oracle and any task order: niter <= iterations, "
+GEN_FUNCS = ["solver._solve_done__kernel", "solver._solve_cg_finalize__kernel", "solver._rescale"]
+LEVEL_TEXT = ("Theorems `kernel_refines_model` / `cg_kernel_refines_model`: the `_solve_done` (Newton) and `_solve_cg_finalize` (CG) kernels as regenerated from solver.py equal, for every input, "
+              "the per-world transition of the hand-written termination model (Model/Term.lean) under a tolerance test that reads the world's OWN entries of the batched fields "
+              "(`opt_tolerance[w % its own length]`, `stat_meaninertia[w % its own length]`); `cg_termination_own_world` / `newton_termination_own_world`: two Models that agree on world w's "
+              "entries (batched vs unbatched) give the same termination writes. In the model, for any nworld, any iterations >= 1, any convergence oracle and any task order: niter <= iterations, "
               "nsolving counts undone worlds, the fixed-count loop and the while(nsolving) loop end in the same state, the ITERATIONS bit is set iff the world stopped at the limit "
               "without converging (given the bit is clear on entry), done worlds are frozen, launches are order-independent. The numerics (what `conv` is) are abstracted; "
-              "transparency of the other solver kernels for done worlds is sampled by running mixed batches with graph_conditional on/off.")
-LEVEL_NOTE = ("Trusted: Lean kernel, tier-B translator (validated by launch interception), the abstraction of the tolerance test as an oracle depending only on the world's own iterations; "
-              "_solve_cg_finalize shares the same block but only the sampled oracle covers it.")
+              "transparency of the other solver kernels for done worlds is sampled by running mixed batches with graph_conditional on/off; per-world batched opt.tolerance / opt.ls_tolerance / "
+              "stat.meaninertia (mixed lengths nworld / 2 / 1) are sampled for both solvers: every world's (solver_niter, ITERATIONS bit, qacc, qfrc_constraint) equals the same world of the "
+              "same batch run with its own values unbatched.")
+LEVEL_NOTE = ("Trusted: Lean kernel, tier-B translator (validated by launch interception of both termination kernels), the abstraction of the tolerance test as an oracle depending only on the "
+              "world's own iterations; the linesearch's use of tolerance * ls_tolerance (gtol) is covered only by the sampled batched-field oracle, not by a theorem.")
 ASSUMPTIONS = ["the overflow bit is sticky across steps (cleared only by reset_data): 'exactly when' is proved under 'bit clear on entry' (Props/C25Witness.lean documents it)",
                "negative opt.iterations with graph_conditional would not terminate (C25Witness); MuJoCo never produces it"]
 
@@ -37,7 +41,7 @@ def _cases(ctx, ncases, intercept):
   from harness import mjw_util
   rng = np.random.default_rng(ctx.seed * 1000 + 25)
   findings, samples, evals, distinct = [], [], 0, set()
-  rec = kernel_corr.Recorder(wanted=["solver._solve_done__kernel"], max_records_per_kernel=8) if intercept else None
+  rec = kernel_corr.Recorder(wanted=["solver._solve_done__kernel", "solver._solve_cg_finalize__kernel"], max_records_per_kernel=8) if intercept else None
   if rec:
     rec.__enter__()
   try:
@@ -122,14 +126,181 @@ def _cases(ctx, ncases, intercept):
   return evals, len(distinct), samples, findings, kc
 
 
+# ---------------------------------------------------------------------------------------------------------------------------
+# per-world (batched) termination inputs: opt.tolerance, opt.ls_tolerance, stat.meaninertia are `array("*", float)` Model fields,
+# read in the kernels as field[worldid % field.shape[0]].  Each world of a batch must stop exactly like the same world of a
+# batch of the SAME size and states whose Model carries that world's values unbatched (shape (1,)).
+XML_B = """
+<mujoco>
+  <option timestep="0.005" solver="{solver}" iterations="{iters}" tolerance="1e-8" cone="{cone}" jacobian="{jac}"/>
+  <worldbody>
+    <geom type="plane" size="5 5 .1"/>
+    <body pos="0 0 .4">
+      <joint type="hinge" axis="0 1 0" frictionloss="0.3" range="-35 35" limited="true"/>
+      <geom type="capsule" size=".03" fromto="0 0 0 .25 0 0"/>
+      <body pos=".25 0 0"><joint type="hinge" axis="0 1 0" frictionloss="0.15"/><geom type="capsule" size=".03" fromto="0 0 0 .25 0 0"/>
+        <body pos=".25 0 0"><joint type="hinge" axis="1 0 0" range="-20 20" limited="true"/><geom type="capsule" size=".03" fromto="0 0 0 .2 0 0"/></body></body>
+    </body>
+    <body pos="0 .6 .098"><freejoint/><geom type="box" size=".1 .1 .1"/></body>
+    <body pos=".02 .61 .277"><freejoint/><geom type="box" size=".08 .08 .08"/></body>
+    <body pos=".6 .6 .058"><freejoint/><geom type="sphere" size=".06"/></body>
+    <body pos="-.5 0 .3"><joint type="slide" axis="0 0 1" frictionloss="0.2"/><geom type="sphere" size=".08"/></body>
+  </worldbody>
+</mujoco>
+"""
+
+# which of the three fields are batched, and with which length ("n" = nworld, 2 = period 2 (world w reads entry w % 2), absent = (1,)).
+# Mixed lengths on purpose: a lookup that wraps with a neighbouring field's length is invisible when all lengths agree.
+_BATCH_CONFIGS = [
+  {"tolerance": "n"},
+  {"tolerance": "n", "meaninertia": 2},
+  {"ls_tolerance": "n"},
+  {"tolerance": 2, "ls_tolerance": "n"},
+  {"meaninertia": "n"},
+  {"tolerance": "n", "ls_tolerance": "n", "meaninertia": "n"},
+]
+_TOL_POOL = [1e-1, 1e-3, 1e-5, 1e-8, 1e-12]          # 1e-12 is unreachable in float32: such a world runs to the limit
+_LSTOL_POOL = [0.3, 0.01, 1e-3, 1e-5, 0.1]
+_MI_POOL = [1.0, 0.05, 20.0, 300.0, 0.003]            # factors on the compiled stat.meaninertia (it only scales the termination test)
+_ITER_POOL = [100, 20, 4, 30]                          # 20 / 4: some CG / Newton worlds stop by tolerance, others hit the limit
+
+
+def _set_field(m, wp, name, values):
+  arr = wp.array(np.asarray(values, dtype=np.float32), dtype=float)
+  if name == "meaninertia":
+    m.stat.meaninertia = arr
+  else:
+    setattr(m.opt, name, arr)
+
+
+def _batched_options(ctx, ncases, salt=0):
+  """returns (evals, distinct, hits, findings)"""
+  import mujoco
+  import warp as wp
+  import mujoco_warp as mjw
+  from harness import mjw_util
+  rng = np.random.default_rng(ctx.seed * 1000 + 2525 + salt)
+  findings, hits, distinct, evals = [], {}, set(), 0
+
+  def hit(k):
+    hits[k] = hits.get(k, 0) + 1
+
+  def find(what, site, trigger_id, **kw):
+    if len(findings) < 20:
+      findings.append(dict({"what": what, "site": site, "trigger_id": trigger_id}, **kw))
+
+  off = int(ctx.seed) + salt
+  for c0 in range(ncases):
+    c = c0 + 2 * off
+    solver = ("CG", "Newton")[c % 2]
+    cfg = _BATCH_CONFIGS[(c // 2) % len(_BATCH_CONFIGS)]
+    iters = _ITER_POOL[(c // 2 + c // 12) % len(_ITER_POOL)]
+    cone = ("pyramidal", "elliptic")[(c // 2 + c // 4) % 2]
+    jac = ("dense", "sparse")[(c // 4) % 2]
+    gc = bool((c // 2 + c // 12) % 2)
+    nworld = int(rng.integers(3, 6))
+    same_state = (c // 2 + c // 12) % 3 == 0
+    site = "solver._solve_cg_finalize" if solver == "CG" else "solver._solve_done"
+    xml = XML_B.format(solver=solver, iters=iters, cone=cone, jac=jac)
+    mjm, mjd = mjw_util.load(xml)
+    for _ in range(25):
+      mujoco.mj_step(mjm, mjd)
+    mjd.qvel[:] += rng.normal(size=mjm.nv)
+    mujoco.mj_forward(mjm, mjd)
+    qvel = np.tile(mjd.qvel, (nworld, 1)).astype(np.float32)
+    if not same_state:
+      qvel += (rng.normal(size=qvel.shape) * 0.3).astype(np.float32)
+    # per-world values; world 0 alternately the loosest / the tightest (both directions of a wrong lookup must show)
+    vals = {}
+    for name, ln in cfg.items():
+      n = nworld if ln == "n" else int(ln)
+      if name == "tolerance":
+        v = list(rng.permutation(_TOL_POOL)[:n])
+        k = int(np.argmax(v)) if (c // 2 + c // 12) % 2 == 0 else int(np.argmin(v))
+        v[0], v[k] = v[k], v[0]
+      elif name == "ls_tolerance":
+        v = list(rng.permutation(_LSTOL_POOL)[:n])
+      else:
+        v = [float(mjm.stat.meaninertia) * f for f in rng.permutation(_MI_POOL)[:n]]
+      vals[name] = [float(np.float32(x)) for x in v]
+
+    def run(fields):
+      m = mjw.put_model(mjm)
+      m.opt.graph_conditional = gc
+      for name, v in fields.items():
+        _set_field(m, wp, name, v)
+      d = mjw.put_data(mjm, mjd, nworld=nworld)
+      mjw_util.set_rows(d.qvel, qvel)
+      mjw_util.set_rows(d.qacc_warmstart, np.zeros((nworld, mjm.nv), np.float32))   # cold start: the solver has real work to do
+      mjw.forward(m, d)
+      return d.solver_niter.numpy().copy(), (d.overflow.numpy() & 512) != 0, d.qacc.numpy().copy(), d.qfrc_constraint.numpy().copy()
+
+    bn, bb, bq, bf = run(vals)
+    evals += 1
+    hit(f"batched:{'+'.join(f'{k}[{v}]' for k, v in sorted(cfg.items()))}")
+    hit(f"solver:{solver}")
+    hit(f"limit:{iters}")
+    if not np.isfinite(bq).all():
+      hit("skip:nonfinite")
+      continue
+    replay = {"xml": xml, "fields": vals, "nworld": nworld, "graph_conditional": gc, "qvel": qvel.tolist()}
+    if (bn > iters).any() or (bn < 0).any():
+      find(f"solver_niter {bn.tolist()} exceeds the limit {iters} (batched {sorted(cfg)})", "solver._solve", "niter-bound", **replay)
+    if (bb & (bn < iters)).any():
+      find("ITERATIONS bit set for a world that stopped before the limit", site, "bit-early", niter=bn.tolist(), **replay)
+    if len(set(bn.tolist())) > 1:
+      hit(f"mixed-niter:{solver}")
+    if bb.any() and not bb.all():
+      hit(f"mixed-bit:{solver}")
+    distinct.add((solver, cone, iters, tuple(sorted(cfg.items())), tuple(bn.tolist())))
+    # references: one per distinct effective value tuple, same nworld and states, every field of shape (1,)
+    groups = {}
+    for w in range(nworld):
+      eff = tuple((name, v[w % len(v)]) for name, v in sorted(vals.items()))
+      groups.setdefault(eff, []).append(w)
+    ref_differs = False
+    for eff, ws in groups.items():
+      rn, rb, rq, rf = run({name: [x] for name, x in eff})
+      evals += 1
+      # worlds outside the group run here with foreign values: if that moves their stopping point, a wrong lookup is observable
+      if any(rn[u] != bn[u] or rb[u] != bb[u] for u in range(nworld) if u not in ws):
+        ref_differs = True
+      for w in ws:
+        who = f"world {w} of {nworld} ({solver}, limit {iters}, batched {dict(cfg)}, own values {dict(eff)})"
+        if rn[w] != bn[w]:
+          find(f"{who}: solver_niter {int(bn[w])} in the batch, {int(rn[w])} when the Model carries its own values unbatched (batch niter {bn.tolist()})",
+               site, "batched-option-niter", world=w, **replay)
+        elif rb[w] != bb[w]:
+          find(f"{who}: ITERATIONS bit {bool(bb[w])} in the batch, {bool(rb[w])} with its own values unbatched", site, "batched-option-bit", world=w, **replay)
+        else:
+          sq, sf = 1e-5 * (1 + np.abs(rq[w]).max()), 1e-5 * (1 + np.abs(rf[w]).max())
+          if np.abs(rq[w] - bq[w]).max() > sq or np.abs(rf[w] - bf[w]).max() > sf:
+            find(f"{who}: same niter but qacc differs by {float(np.abs(rq[w] - bq[w]).max()):.3g}, qfrc_constraint by {float(np.abs(rf[w] - bf[w]).max()):.3g}",
+                 "solver._solver_iteration", "batched-option-result", world=w, **replay)
+    if ref_differs:
+      hit(f"sensitive:{solver}")      # some world would stop elsewhere under another world's values: a wrong lookup is observable
+    else:
+      hit(f"insensitive:{solver}")
+  return evals, len(distinct), hits, findings
+
+
 def correspondence(ctx):
   evals, distinct, samples, findings, kc = _cases(ctx, 40 if ctx.thorough else 16, True)
-  return {"evaluations": evals + kc["tasks"], "distinct_nontrivial": distinct,
+  e2, d2, hits, f2 = _batched_options(ctx, 36 if ctx.thorough else 12)
+  return {"evaluations": evals + e2 + kc["tasks"], "distinct_nontrivial": distinct + d2,
           "rule": "random (solver, iteration limit 1..30, tolerance, cone) on a scene whose worlds differ (resting contacts vs free fall) so worlds converge at different iterations; "
-                  "each case run with graph_conditional off and on; distinct = distinct (config, per-world niter vector); kernel interception of every _solve_done launch",
-          "samples": samples, "kernel_interception": {k: v for k, v in kc.items() if k != "disagreements"}, "disagreements": kc["disagreements"], "findings": findings}
+                  "each case run with graph_conditional off and on; distinct = distinct (config, per-world niter vector); kernel interception of every _solve_done launch. "
+                  "Batched termination inputs: both solvers in alternation x a rotation of which of opt.tolerance / opt.ls_tolerance / stat.meaninertia are per-world "
+                  "(length nworld, period 2, or (1,), mixed lengths) x iteration limits {100, 30, 20, 4} x cones x jacobians x loop kinds, cold-started articulated + contact scene; "
+                  "every world's (solver_niter, ITERATIONS bit, qacc, qfrc_constraint) must equal the same world of the same batch run with its own values unbatched; "
+                  "hits record which configurations ran, mixed-niter / mixed-bit batches and whether foreign values would have moved a world's stopping point (sensitive)",
+          "samples": samples, "hits": hits, "kernel_interception": {k: v for k, v in kc.items() if k != "disagreements"}, "disagreements": kc["disagreements"],
+          "findings": findings + f2}
 
 
 def search(ctx, breaks):
   evals, distinct, samples, findings, _ = _cases(ctx, 60, False)
-  return {"oracle": "niter bound, bit only at the limit, fixed loop == conditional loop (niter, qacc, bit)", "cases": evals, "outcome": "witness" if findings else "none", "findings": findings}
+  e2, _, hits, f2 = _batched_options(ctx, 24, salt=7)
+  return {"oracle": "niter bound, bit only at the limit, fixed loop == conditional loop (niter, qacc, bit); per-world batched tolerance / ls_tolerance / meaninertia: "
+                    "each world == the same world with its own values unbatched (niter, bit, qacc, qfrc_constraint)",
+          "cases": evals + e2, "hits": hits, "outcome": "witness" if findings or f2 else "none", "findings": findings + f2}
